@@ -332,6 +332,25 @@ Fixpoint robe_dispatch (buf : list N) (ms : list msg) : list msg :=
     else robe_dispatch buf r
   end.
 
+(* ------------------------------------------------------------------ EnttecUsbProWidget: label dispatch *)
+(* EnttecUsbProWidgetImpl::HandleMessage: the port assignment reply is handled by the widget itself
+   (port 0, handler 5); a label above the threshold on a widget with two ports goes through the
+   port-2 label set, every other label through the port-1 set (HandleLabel); a label found in
+   neither is logged and dropped (handler 0).  ENTTEC_DISPATCH is regenerated from the source. *)
+Definition enttec_lookup (port label : N) : N :=
+  match find (fun r => (fst r =? label) && (fst (snd r) =? port)) ENTTEC_DISPATCH with
+  | Some r => snd (snd r)
+  | None => 0
+  end.
+Definition enttec_route (dual : bool) (label : N) : N * N :=
+  if label =? ENTTEC_PORT_ASSIGNMENT_LABEL then (0, 5)
+  else if (ENTTEC_PORT2_THRESHOLD <? label) && dual then (2, enttec_lookup 2 label)
+  else (1, enttec_lookup 1 label).
+(* the frames that reach a handler, each with (port, handler) *)
+Definition enttec_dispatch (dual : bool) (ms : list msg) : list (N * N * msg) :=
+  flat_map (fun m => let r := enttec_route dual (fst m) in
+                     if snd r =? 0 then [] else [(r, m)]) ms.
+
 (* ------------------------------------------------------------------ Open Pixel Control (OPCServer) *)
 (* o_data = RxState::data[0 .. offset), o_cap = RxState::buffer_size *)
 Record ostate := { o_data : list N; o_cap : N }.
